@@ -143,6 +143,26 @@ type Env struct {
 	Deadline time.Time
 	Seed     int64
 	start    time.Time
+	cur      *os.File
+}
+
+// mark records (in a side file that survives a process crash) which execution is
+// about to run, so that the driver can turn a crash of the code under test into
+// a replayable violation.
+func (e *Env) mark(scenario string, choices []Point) {
+	if e.Out == "" {
+		return
+	}
+	if e.cur == nil {
+		f, err := os.Create(e.Out + ".current")
+		if err != nil {
+			return
+		}
+		e.cur = f
+	}
+	data, _ := json.Marshal(map[string]any{"property": e.Property, "scenario": scenario, "choices": choices, "msg": "process crashed while running this execution", "sig": "process-crash"})
+	e.cur.WriteAt(data, 0)
+	e.cur.Truncate(int64(len(data)))
 }
 
 func atoi(s string, d int) int {
@@ -249,6 +269,7 @@ func choicesOf(tr []Point) []int {
 }
 
 func (e *Env) safeExec(sc *Scenario, prefix []Point) (o *Outcome) {
+	e.mark(sc.Name, prefix)
 	defer func() {
 		if p := recover(); p != nil {
 			if d, ok := p.(Divergence); ok {
